@@ -135,6 +135,7 @@ pub fn scenario(u: &mut Unstructured, role: Role) -> Scenario {
         dally: u.arbitrary().unwrap_or(true),
         pre_existing: role == Role::Receiver && u.ratio(1, 4).unwrap_or(false),
         fsize_limit: None,
+        peer_leaves: false,
     }
 }
 
